@@ -299,14 +299,6 @@ def linear_cg(
         residual_norm.masked_fill_(rhs_is_zero, 0)
         torch.lt(residual_norm, stop_updating_after, out=has_converged)
 
-        if (
-            k >= min(10, max_iter - 1)
-            and bool(residual_norm.mean() < tolerance)
-            and not (n_tridiag and k < min(n_tridiag_iter, max_iter - 1))
-        ):
-            tolerance_reached = True
-            break
-
         # Update tridiagonal matrices, if applicable
         if n_tridiag and k < n_tridiag_iter and update_tridiag:
             alpha_tridiag = alpha.squeeze(-2).narrow(-1, 0, n_tridiag)
@@ -330,6 +322,14 @@ def linear_cg(
 
             prev_alpha_reciprocal.copy_(alpha_reciprocal)
             prev_beta.copy_(beta_tridiag)
+
+        if (
+            k >= min(10, max_iter - 1)
+            and bool(residual_norm.mean() < tolerance)
+            and not (n_tridiag and k < min(n_tridiag_iter, max_iter - 1))
+        ):
+            tolerance_reached = True
+            break
 
     # Un-normalize
     result = result.mul(rhs_norm)
